@@ -129,15 +129,19 @@ def check_cases(prop, tier, res, plan, assumptions, replay=None):
             foreign = [(c, v) for c, v in r["bad"] if v.startswith("PROP ") and (c, v) not in props]
             how = {"harness": [pl["sub"]] + [str(a) for a in pl["args"](tier, seed(), sh)], "driver_mode": pl["mode"]}
             per_clause = {}
+            known_fps = {k.get("fingerprint") for k in known_findings(prop) if k.get("status") == "open"}
+            unlisted = 0  # failing inputs that are not a listed known finding: only those can explain a divergence
             for c, v in props:
                 clause = v.split(" ")[2] if len(v.split(" ")) > 2 else "?"
+                fp = f"{fam}:{clause}" if clause in pl.get("class_clauses", ()) else f"{fam}:{clause}:{case_key(c, pl['key_fields'])}"
+                if fp not in known_fps:
+                    unlisted += 1
                 per_clause[clause] = per_clause.get(clause, 0) + 1
                 if per_clause[clause] > 2:
                     continue
-                fp = f"{fam}:{clause}" if clause in pl.get("class_clauses", ()) else f"{fam}:{clause}:{case_key(c, pl['key_fields'])}"
                 res.violation(fp, f"{prop} violated by the implementation on a concrete input ({fam}/{clause}): {v[:300]}",
                               {"kind": "case", "family": fam, "case": json.loads(c), "verdict": v, "rerun": how}, found=True)
-            if others and not props:
+            if others and not unlisted:
                 c, v = others[0]
                 clause = v.split(" ")[1] if len(v.split(" ")) > 1 else "?"
                 res.violation(f"{fam}:diverge:{clause}", f"correspondence broken ({fam}/{clause}): model and implementation disagree on {len(others)} case(s); the property predicate held on every case explored. First: {v[:300]}",
